@@ -124,11 +124,17 @@ Proof.
   rewrite !bridge_frank_g. reflexivity.
 Qed.
 
-Lemma bridge_frank_pdf th u v : th <> 0 -> frank_probability_density th u v = frank_c th u v.
+Lemma bridge_frank_pdf th u v : th <> 0 -> 0 <= u <= 1 -> 0 <= v <= 1 ->
+  frank_probability_density th u v = frank_c th u v.
 Proof.
-  intros Hth. unfold frank_probability_density, frank_c. cbv zeta.
+  intros Hth Hu Hv. unfold frank_probability_density, frank_c. cbv zeta.
   rewrite (proj2 (Reqb_false th 0)) by assumption.
-  rewrite !bridge_frank_g. simpl powerRZ. rewrite Rmult_1_r. reflexivity.
+  simpl powerRZ. rewrite ?Rmult_1_r. rewrite !bridge_frank_g. unfold np_exp.
+  pose proof (Frank.frank_D_neq0 th u v Hth Hu Hv) as HD.
+  first [ reflexivity
+        | (replace (exp (- th * (u + v))) with (1 + frank_g th (u + v)) by (unfold frank_g; ring); reflexivity)
+        | (replace (exp (- th * (u + v))) with (1 + frank_g th (u + v)) by (unfold frank_g; ring);
+           set (D := frank_g th u * frank_g th v + frank_g th 1) in *; field; exact HD) ].
 Qed.
 
 Lemma bridge_frank_generator th t : frank_generator th t = frank_phi th t.
